@@ -626,7 +626,7 @@ class BusAuthenticator :
             self.state = 'WaitingForBegin'
 
         elif status == 'CONTINUE':
-            self.sendAuthMessage(b'DATA ' + binascii.hexlify(challenge))
+            self.sendAuthMessage(b'DATA ' + binascii.hexlify(challenge or b''))
             self.state = 'WaitingForData'
 
         else:
